@@ -81,6 +81,73 @@ theorem C23_never_500 (rf : Nat) (replicated : Bool) (n : Nat) (rs : List Resp) 
   rw [fanout_failure_eq_final rf replicated n rs hrf hc hwf]
   exact (final_status (params_of rf replicated hrf) n rs hc).2.2.1
 
+/-- **The status is a function of the per-series numbers of successes and of conflicts alone**
+    (repaired code, arbitrary error kinds): 200 iff every series has a quorum of successes; 409 iff
+    some series lacks it and every series that lacks it has `failThr` conflicts; otherwise 503. -/
+theorem C23_status_char (rf : Nat) (replicated : Bool) (n : Nat) (rs : List Resp) (hrf : 1 ≤ rf)
+    (hc : Complete n (nrepOf rf replicated) rs)
+    (hwf : ∀ r, r ∈ rs → ∀ k, r.out = some k → wfKind k = true) :
+    let st := httpStatus (fanout .failure rf replicated n rs)
+    (st = 200 ↔ ∀ i, i < n → quorumOf rf replicated ≤ oks rs i) ∧
+    (st = 409 ↔ (∃ i, i < n ∧ oks rs i < quorumOf rf replicated) ∧
+                 ∀ i, i < n → oks rs i < quorumOf rf replicated → failThr rf replicated ≤ conflictsOf rs i) ∧
+    (st = 200 ∨ st = 409 ∨ st = 503) := by
+  simp only
+  rw [fanout_failure_eq_final rf replicated n rs hrf hc hwf]
+  exact final_status_char (params_of rf replicated hrf) n rs hc hwf
+
+/-- **How a transport classifies the non-conflict errors does not matter.**  The protobuf peers
+    report a peer's internal error as `codes.Internal` (none of the three classes), the Cap'n Proto
+    client (`writecapnp.RemoteWriteClient`) reports it as `codes.Unavailable` (not-ready and
+    unavailable); a peer in back-off gives `errUnavailable`, a dial error a wrapped one … .  Any
+    re-classification `f` of the errors that keeps the conflict flag leaves the status unchanged. -/
+theorem C23_transport_independent (f : ErrKind → ErrKind)
+    (hf : ∀ k, (f k).conflict = k.conflict) (hfw : ∀ k, wfKind k = true → wfKind (f k) = true)
+    (rf : Nat) (replicated : Bool) (n : Nat) (rs : List Resp) (hrf : 1 ≤ rf)
+    (hc : Complete n (nrepOf rf replicated) rs)
+    (hwf : ∀ r, r ∈ rs → ∀ k, r.out = some k → wfKind k = true) :
+    httpStatus (fanout .failure rf replicated n (relabel f rs)) = httpStatus (fanout .failure rf replicated n rs) := by
+  have hc' : Complete n (nrepOf rf replicated) (relabel f rs) := fun i hi => by
+    rw [evs_relabel, List.length_map]; exact hc i hi
+  have hwf' : ∀ r, r ∈ relabel f rs → ∀ k, r.out = some k → wfKind k = true := by
+    intro r hr k hk
+    simp only [relabel, List.mem_map] at hr
+    obtain ⟨r0, hr0, rfl⟩ := hr
+    simp only [Option.map_eq_some_iff] at hk
+    obtain ⟨k0, hk0, rfl⟩ := hk
+    exact hfw k0 (hwf r0 hr0 k0 hk0)
+  obtain ⟨a1, a2, a3⟩ := C23_status_char rf replicated n rs hrf hc hwf
+  obtain ⟨b1, b2, b3⟩ := C23_status_char rf replicated n (relabel f rs) hrf hc' hwf'
+  simp only [oks_relabel, conflictsOf_relabel f hf] at b1 b2
+  rcases a3 with h | h | h
+  · rw [h]; exact b1.mpr (a1.mp h)
+  · rw [h]; exact b2.mpr (a2.mp h)
+  · rw [h]
+    rcases b3 with g | g | g
+    · have := a1.mpr (b1.mp g); omega
+    · have := a2.mpr (b2.mp g); omega
+    · exact g
+
+/-- the capnp client's view of a peer: an internal error arrives as Unavailable -/
+def capnpClass (k : ErrKind) : ErrKind := if k = kOther then kGrpcUnavail else k
+
+example : (∀ k, (capnpClass k).conflict = k.conflict) ∧ (∀ k, wfKind k = true → wfKind (capnpClass k) = true) := by
+  constructor <;> intro k <;> rcases k with ⟨c, n, u⟩ <;> cases c <;> cases n <;> cases u <;> decide
+
+/-- Regenerated obligations: the Cap'n Proto server maps the cause of a failed write to
+    unavailable / alreadyExists / invalidArgument / internal as the gRPC handler does; the client ends
+    `case WriteError_internal` with a plain error, which its `RemoteWrite` reports as
+    `codes.Unavailable` — the re-classification `capnpClass` of `C23_transport_independent`. -/
+theorem C23_capnp_transport_fact :
+    Thanos.Facts.capnpServerErrorMap =
+      ["errNotReady=>writecapnp.WriteError_unavailable", "errUnavailable=>writecapnp.WriteError_unavailable",
+       "errConflict=>writecapnp.WriteError_alreadyExists", "errBadReplica=>writecapnp.WriteError_invalidArgument",
+       "default=>writecapnp.WriteError_internal"] ∧
+    Thanos.Facts.capnpClientInternal = ["return nil, 0, fmt.Errorf(\"rpc failed%s\", extraContext)"] ∧
+    Thanos.Facts.capnpClientFallback =
+      "return &storepb.WriteResponse{}, status.Error(codes.Unavailable, fmt.Sprintf(\"writing to peer: %s\", err.Error()))" := by
+  refine ⟨?_, ?_, ?_⟩ <;> decide
+
 /-! ### the code passing `successThreshold` (the tree before the repair) violates C23 -/
 
 /-- rf 4, {conflict, conflict, ok, ok}: cause nil ⇒ 500 -/
